@@ -66,7 +66,33 @@ def const_eval(node, env):
             else:
                 raise ValueError('f-string hole')
         return ''.join(parts)
+    if isinstance(node, ast.BinOp) and isinstance(node.op, ast.Mult):
+        l, r = const_eval(node.left, env), const_eval(node.right, env)
+        if isinstance(l, (str, int)) and isinstance(r, (str, int)) and not (isinstance(l, str) and isinstance(r, str)):
+            if max(x for x in (l, r) if isinstance(x, int)) > 10000:
+                raise ValueError('large repeat')
+            return l * r
+        raise ValueError('mult')
+    if isinstance(node, ast.Call) and not node.keywords:
+        # constant folding of pure text functions on constant text
+        fn = ast.unparse(node.func)
+        if fn in ('textwrap.dedent', 'dedent') and len(node.args) == 1:
+            v = const_eval(node.args[0], env)
+            if isinstance(v, str):
+                import textwrap
+                return textwrap.dedent(v)
+        if isinstance(node.func, ast.Attribute) and node.func.attr in _PURE_STR_METHODS:
+            recv = const_eval(node.func.value, env)
+            if isinstance(recv, str):
+                args = [const_eval(a, env) for a in node.args]
+                if all(isinstance(a, (str, int, tuple, list)) for a in args):
+                    return getattr(recv, node.func.attr)(*args)
+        raise ValueError('call')
     raise ValueError(type(node).__name__)
+
+
+_PURE_STR_METHODS = ('strip', 'lstrip', 'rstrip', 'lower', 'upper', 'replace', 'join', 'splitlines', 'split', 'expandtabs',
+                     'removeprefix', 'removesuffix')
 
 
 class FuncRef:
